@@ -73,16 +73,23 @@ def domain_applies(cls, method, noisy):
     return not normal_noise(cls, method, noisy) and method != 'chebyshev2-noisy' and cls != 'GSph'
 
 
-def doc_nodes(method, a, b, n):
-    """Documented 1-D nodes of the deterministic methods (independent formulas)."""
+BASES = [2, math.e, 10, 100, 1.5]
+
+
+def doc_nodes(method, a, b, n, base=10):
+    """Documented 1-D nodes of the deterministic methods (independent formulas); exp-spaced in the given base.
+    Equally spaced knots are evaluated from the nearer end (as torch.linspace does), which keeps the float
+    evaluation well-conditioned when the two ends differ by many orders of magnitude."""
+    def lin(s0, s1, i):
+        return s0 + (s1 - s0) * i / (n - 1) if 2 * i < n else s1 - (s1 - s0) * (n - 1 - i) / (n - 1)
     if method == 'equally-spaced':
-        return [a] if n == 1 else [a + (b - a) * i / (n - 1) for i in range(n)]
+        return [a] if n == 1 else [lin(a, b, i) for i in range(n)]
     if method == 'log-spaced':
         la, lb = math.log10(a), math.log10(b)
-        return [a] if n == 1 else [10.0 ** (la + (lb - la) * i / (n - 1)) for i in range(n)]
+        return [a] if n == 1 else [10.0 ** lin(la, lb, i) for i in range(n)]
     if method == 'exp-spaced':
-        ea, eb = 10.0 ** a, 10.0 ** b
-        return [a] if n == 1 else [math.log10(ea + (eb - ea) * i / (n - 1)) for i in range(n)]
+        ea, eb = float(base) ** a, float(base) ** b
+        return [a] if n == 1 else [math.log(lin(ea, eb, i)) / math.log(base) for i in range(n)]
     if method in ('chebyshev', 'chebyshev1'):
         return [((a + b) + (b - a) * math.cos((i + 0.5) / n * math.pi)) / 2 for i in range(n)]
     if method == 'chebyshev2':
@@ -183,6 +190,9 @@ def build(G, cfg):
             return G.GeneratorSpherical(cfg['sizes'][0], cfg['lo'][0], cfg['hi'][0], method=m)
         ms = cfg.get('methods') or [m] * len(cfg['sizes'])
         kw = {'abs_value': True} if cfg.get('abs_value') else {}
+        if cfg.get('base') is not None:      # per-axis list/tuple, or a scalar for the N = 1 scalar spelling
+            bs = cfg['base']
+            kw['base'] = bs[0] if cfg.get('scalar') else (tuple(bs) if cfg.get('base_kind', 'tuple') == 'tuple' else list(bs))
         if cfg.get('scalar'):
             return G.GeneratorND(cfg['sizes'][0], cfg['lo'][0], cfg['hi'][0], methods=ms[0], noisy=cfg['noisy'], **kw)
         return G.GeneratorND(tuple(cfg['sizes']), tuple(cfg['lo']), tuple(cfg['hi']), methods=list(ms), noisy=cfg['noisy'], **kw)
@@ -269,7 +279,11 @@ def gen_cfgs(r, G, quick):
                         a, b = gen_bounds(r, positive=m == 'log-spaced')
                         a, b = orient(r, a, b, desc_ok('GND', m, noisy), force=True if (rep == 0 and N == 3 and ax == 1) else None)
                         lo.append(a); hi.append(b)
-                    cfgs.append({'cls': 'GND', 'method': m, 'noisy': noisy, 'sizes': sz, 'lo': lo, 'hi': hi, 'scalar': N == 1 and rep == 0})
+                    c = {'cls': 'GND', 'method': m, 'noisy': noisy, 'sizes': sz, 'lo': lo, 'hi': hi, 'scalar': N == 1 and rep == 0}
+                    if m in ('exp-spaced', 'log-spaced'):
+                        c['base'] = [BASES[(N + rep + ax + (1 if noisy else 0)) % len(BASES)] for ax in range(N)] if rep == 0 else [r.choice(BASES) for _ in range(N)]
+                        c['base_kind'] = 'list' if (N + rep) % 2 else 'tuple'
+                    cfgs.append(c)
     # mixed per-axis methods and abs_value
     for rep in range(4 if quick else 48):
         N = r.choice([2, 3])
@@ -280,7 +294,12 @@ def gen_cfgs(r, G, quick):
             a, b = gen_bounds(r, positive=m == 'log-spaced')
             a, b = orient(r, a, b, desc_ok('GND', m, rep % 2 == 1))
             lo.append(a); hi.append(b)
-        cfgs.append({'cls': 'GND', 'method': '+'.join(ms), 'methods': ms, 'noisy': rep % 2 == 1, 'abs_value': rep % 4 == 3, 'sizes': sz, 'lo': lo, 'hi': hi})
+        cfgs.append({'cls': 'GND', 'method': '+'.join(ms), 'methods': ms, 'noisy': rep % 2 == 1, 'abs_value': rep % 4 == 3, 'sizes': sz, 'lo': lo, 'hi': hi,
+                     'base': [r.choice(BASES) for _ in range(N)] if rep % 3 else None})
+    # every base once, deterministically (exp-spaced, N = 1 in both spellings, and per-axis bases for N = 2)
+    for bi, bb in enumerate(BASES):
+        cfgs.append({'cls': 'GND', 'method': 'exp-spaced', 'noisy': False, 'sizes': [5], 'lo': [0.5], 'hi': [2.0], 'scalar': bi % 2 == 0, 'base': [bb]})
+    cfgs.append({'cls': 'GND', 'method': 'exp-spaced', 'noisy': False, 'sizes': [3, 4], 'lo': [0.5, 1.0], 'hi': [2.0, -1.0], 'base': [2, 100], 'base_kind': 'list'})
     return cfgs
 
 
@@ -382,7 +401,7 @@ def oracle(ck, torch, G, cfg):
         # reference noise std is not identically zero are required to move: 'uniform' axes get std 0 by
         # design, and an exp-spaced axis has std |noise_rstd * node| (generators.py:529), which vanishes
         # on the whole axis iff every reference node is exactly 0.0 (one node, at r_min = 0).
-        zero_std = [ms[k] == 'exp-spaced' and all(x == 0.0 for x in doc_nodes('exp-spaced', cfg['lo'][k], cfg['hi'][k], cfg['sizes'][k]))
+        zero_std = [ms[k] == 'exp-spaced' and all(x == 0.0 for x in doc_nodes('exp-spaced', cfg['lo'][k], cfg['hi'][k], cfg['sizes'][k], (cfg.get('base') or [10] * dim)[k]))
                     for k in range(dim)]
         movable = [k for k in range(dim) if ms[k] != 'uniform' and not zero_std[k]]
         identical = any(same) or all(torch.equal(x, y) for x, y in zip(outs[1], outs[2]))
@@ -411,7 +430,7 @@ def oracle(ck, torch, G, cfg):
                 ck.fail(f'{key}/not-a-product', f'tensor {k} is not the k-th coordinate of a row-major tensor product of 1-D node lists', inp)
                 break
             mk = ms[k]
-            doc = doc_nodes(mk, cfg['lo'][k], cfg['hi'][k], cfg['sizes'][k])
+            doc = doc_nodes(mk, cfg['lo'][k], cfg['hi'][k], cfg['sizes'][k], (cfg.get('base') or [10] * dim)[k])
             if doc is not None and any(abs(x - y) > tol(cfg['lo'][k], cfg['hi'][k]) * 10 for x, y in zip(nodes, doc)):
                 ck.fail(f'{key}/nodes', f'axis {k}: 1-D nodes are not the documented {mk} nodes', inp, expected=doc[:6], actual=nodes[:6])
                 break
@@ -426,7 +445,7 @@ def oracle(ck, torch, G, cfg):
         if m == 'latin-hypercube':
             for ex in outs:
                 check_strata(ck, key, inp, ex[0].detach().tolist(), cfg['lo'][0], cfg['hi'][0])
-    ck.add_case((cls, m, noisy, tuple(cfg['sizes']), tuple(cfg['lo']), tuple(cfg['hi']), cfg.get('abs_value', False)), nontrivial=size > 1)
+    ck.add_case((cls, m, noisy, tuple(cfg['sizes']), tuple(cfg['lo']), tuple(cfg['hi']), cfg.get('abs_value', False), tuple(cfg.get('base') or ())), nontrivial=size > 1)
     return g
 
 
@@ -450,14 +469,21 @@ def entry_cfg(e, r):
     lo, hi = [], []
     for _ in range(d):
         a, b = gen_bounds(r, positive=m.startswith('log-spaced'), nonneg=cls == 'GSph')
+        if m == 'exp-spaced':
+            # keep base**max / base**min moderate: the generated formula start + (end - start) i/(n-1) is evaluated
+            # naively in float64 here and would lose digits against torch.linspace's two-ended evaluation
+            a = r.choice([-1.0, 0.0, 0.5]); b = a + r.choice([0.25, 1.0, 1.5])
         a, b = orient(r, a, b, desc_ok(cls, m, e['noisy']))
         lo.append(a); hi.append(b)
-    return {'cls': cls, 'method': m, 'noisy': e['noisy'], 'sizes': sz, 'lo': lo, 'hi': hi}
+    out = {'cls': cls, 'method': m, 'noisy': e['noisy'], 'sizes': sz, 'lo': lo, 'hi': hi}
+    if e.get('base') is not None:
+        out['base'] = list(e['base'])
+    return out
 
 
 def validate_entry(ck, torch, G, e, r, cases, goals, n_goals):
     cfg = entry_cfg(e, r)
-    name = t_C07.entry_name(e)
+    name = t_C07.entry_name(e) + (f'_base{"_".join(str(b) for b in e["base"])}' if e.get('base') else '')
     ob = f'table:{name}'
     # ---- spied run: which RNG calls, getter callable, count, flags
     with RNG(torch, 'spy') as spy:
@@ -685,6 +711,16 @@ def main():
         for rep in range(8 if T else 1):
             for e in table:
                 validate_entry(ck, torch, G, e, r, cases if rep == 0 else [], goals, 24 if T else 10)
+        # validation-only entries: exp-spaced with a non-default base (the emitted table uses base 10)
+        for bb in ([2, 100], [1.5, 2], [100, 1.5]):
+            for noisy_ in (False, True):
+                try:
+                    e2 = t_C07.run_entry(REPO, 'GND', 'exp-spaced', noisy_, base=bb)
+                except Exception as exn:
+                    ck.broke('translator-refusal', f'extractor:GND_exp_spaced(base={bb})', str(exn))
+                    continue
+                if e2 is not None:
+                    validate_entry(ck, torch, G, e2, r, [], [], 0)
         bad = ck.step_cases('table', PRE, cases)
         for lbl in bad:
             ck.broke('correspondence-broken', 'table-vs-implementation', f'table fact differs from the observation: {lbl}')
